@@ -64,6 +64,15 @@ Proof.
 Qed.
 Print Assumptions C10_sched.
 
+(* what one thread observes: the result rows and the kinds of its handles do not depend on the counts — two runs of one history from
+   states with the same handles agree on them whatever other threads did to the shared allocations in between (the tie: case id 110 runs
+   one history on several threads over shared allocations and compares each thread's rows with the sequential model's) *)
+Theorem C10_thread_view : forall ops s1 s2 rows1 f1 rows2 f2, same_view s1 s2 ->
+  arun_raw s1 ops = (rows1, Some f1) -> arun_raw s2 ops = (rows2, Some f2) ->
+  proj_thread rows1 = proj_thread rows2 /\ same_view f1 f2.
+Proof. exact thread_rows. Qed.
+Print Assumptions C10_thread_view.
+
 (* non-vacuity: a history that creates, clones, takes, transposes and drops *)
 Example C10_example :
   exists s ev, exec init [ANewArc 1 7; AClone 0; ATake 0; AToSome 2; ADrop 1; ADrop 3; ADrop 0]%Z = Some (s, ev) /\
